@@ -18,6 +18,7 @@ import PandoraModel.Model.Dataset
 import PandoraModel.Model.PyExpr
 import PandoraModel.Generated.ImgTools
 import PandoraModel.Generated.KernelsGlue
+import PandoraModel.Generated.KernelsGlueSelfTest  -- the translator's own glue test functions, checked by evaluation
 import PandoraModel.Properties.C16
 import Mathlib.Tactic.SplitIfs
 
